@@ -68,18 +68,14 @@ fn stream_of(docs: &[(&str, Kind, &str)], seq: &[usize]) -> String {
     s
 }
 
-fn opts() -> serde_saphyr::Options {
-    DOpts::new(P::Error).options()
+fn batch(text: &str, ty: &Ty, o: &DOpts) -> Result<Vec<Val>, serde_saphyr::Error> {
+    rt::with_ty(ty, || serde_saphyr::from_multiple_with_options::<Dyn>(text, o.options())).map(|v| v.into_iter().map(|d| d.0).collect())
 }
 
-fn batch(text: &str, ty: &Ty) -> Result<Vec<Val>, serde_saphyr::Error> {
-    rt::with_ty(ty, || serde_saphyr::from_multiple_with_options::<Dyn>(text, opts())).map(|v| v.into_iter().map(|d| d.0).collect())
-}
-
-fn iterate(text: &str, ty: &Ty) -> Vec<Result<Val, serde_saphyr::Error>> {
+fn iterate(text: &str, ty: &Ty, o: &DOpts) -> Vec<Result<Val, serde_saphyr::Error>> {
     rt::with_ty(ty, || {
         let mut cur = std::io::Cursor::new(text.as_bytes().to_vec());
-        let it = serde_saphyr::read_with_options::<_, Dyn>(&mut cur, opts());
+        let it = serde_saphyr::read_with_options::<_, Dyn>(&mut cur, o.options());
         let mut out = Vec::new();
         for (i, r) in it.enumerate() {
             if i > 40 {
@@ -91,8 +87,8 @@ fn iterate(text: &str, ty: &Ty) -> Vec<Result<Val, serde_saphyr::Error>> {
     })
 }
 
-fn single(text: &str, ty: &Ty) -> Result<Val, serde_saphyr::Error> {
-    deserk::run(text, ty, &DOpts::new(P::Error))
+fn single(text: &str, ty: &Ty, o: &DOpts) -> Result<Val, serde_saphyr::Error> {
+    deserk::run(text, ty, o)
 }
 
 fn xterm(r: &Result<Val, serde_saphyr::Error>) -> String {
@@ -109,11 +105,45 @@ pub fn run(ctx: &mut Ctx) {
         replay(ctx, &r);
         return;
     }
-    family(ctx, DOCS, &rec_ty());
-    family(ctx, DOCS_TUPLE, &pair_ty());
+    let plain = DOpts::new(P::Error);
+    family(ctx, DOCS, &rec_ty(), &plain, 4);
+    family(ctx, DOCS_TUPLE, &pair_ty(), &plain, 4);
+    // text documents: only the plain null forms are "null documents"; empty block scalars, quoted and block-scalar
+    // `null` are values (the batch function and the iterator must agree on that)
+    family(ctx, DOCS_TEXT, &Ty::String, &plain, 3);
+    family(ctx, DOCS_TEXT, &Ty::Option(Box::new(Ty::String)), &plain, 2);
+    // a depth limit that every document meets on its own: what a failed document left open must not count against
+    // the documents that follow it (the iterator enforces the budget per document)
+    let mut tight = DOpts::new(P::Error);
+    let mut b = serde_saphyr::budget::Budget::default();
+    b.max_depth = 3;
+    tight.budget = Some(b);
+    family(ctx, DOCS, &rec_ty(), &tight, 3);
+    family(ctx, DOCS_TUPLE, &pair_ty(), &tight, 3);
+    single_with_budgets(ctx);
 }
 
-fn family(ctx: &mut Ctx, docs: &[(&str, Kind, &str)], ty: &Ty) {
+/// third family: text documents
+const DOCS_TEXT: &[(&str, Kind, &str)] = &[
+    ("word", Kind::Valid, "hello\n"),
+    ("quoted_empty", Kind::Valid, "''\n"),
+    ("folded_empty_endmarker", Kind::Valid, ">-\n...\n"),
+    // F61 (saphyr-parser): an empty block scalar at the root swallows the document marker that follows it
+    ("folded_empty", Kind::Valid, ">-\n"),
+    ("literal_empty", Kind::Valid, "|\n"),
+    ("literal_empty_endmarker", Kind::Valid, "|\n...\n"),
+    ("literal_null", Kind::Valid, "|-\n  null\n"),
+    ("quoted_null", Kind::Valid, "\"null\"\n"),
+    ("str_tagged_tilde", Kind::Valid, "!!str ~\n"), // F60 (fixed): `!!str` makes it a string, not a null document
+    ("str_tagged_empty", Kind::Valid, "!!str\n"),
+    ("tilde", Kind::Skipped, "~\n"),
+    ("null_word", Kind::Skipped, "NULL\n"),
+    ("empty", Kind::Skipped, ""),
+    ("sequence", Kind::TypeError, "[1, 2]\n"),
+    ("syntax_error", Kind::SyntaxError, "\"unterminated\n"),
+];
+
+fn family(ctx: &mut Ctx, docs: &[(&str, Kind, &str)], ty: &Ty, o: &DOpts, max_len: usize) {
     let quick = ctx.quick();
     let mut rng = ctx.rng.fork();
     let n = docs.len();
@@ -123,10 +153,10 @@ fn family(ctx: &mut Ctx, docs: &[(&str, Kind, &str)], ty: &Ty) {
         for b in 0..n {
             seqs.push(vec![a, b]);
             for c in 0..n {
-                if !quick || rng.chance(1, 6) {
+                if max_len >= 3 && (!quick || rng.chance(1, 6)) {
                     seqs.push(vec![a, b, c]);
                 }
-                if !quick {
+                if !quick && max_len >= 4 {
                     for d in 0..n {
                         if rng.chance(1, 6) {
                             seqs.push(vec![a, b, c, d]);
@@ -137,9 +167,8 @@ fn family(ctx: &mut Ctx, docs: &[(&str, Kind, &str)], ty: &Ty) {
         }
     }
     let ty = ty.clone();
-    let o = DOpts::new(P::Error);
     // per-document reference results
-    let alone: Vec<Result<Val, serde_saphyr::Error>> = docs.iter().map(|d| single(&format!("---\n{}", d.2), &ty)).collect();
+    let alone: Vec<Result<Val, serde_saphyr::Error>> = docs.iter().map(|d| single(&format!("---\n{}", d.2), &ty, o)).collect();
     for (i, d) in docs.iter().enumerate() {
         // sanity of the kind table itself
         let ok = match d.1 {
@@ -159,24 +188,27 @@ fn family(ctx: &mut Ctx, docs: &[(&str, Kind, &str)], ty: &Ty) {
         let rs = rawcoq::raw_stream(live::strip_bom(&text));
         let fuel = 4000 + 12 * rs.items.len();
         // ---- batch
-        let rb = batch(&text, &ty);
+        let rb = batch(&text, &ty, o);
         let mexp = match &rb {
             Ok(vs) => format!("(MXOk {})", coq::list(&vs.iter().map(|v| v.coq()).collect::<Vec<_>>(), "val")),
             Err(e) => format!("(MXErr {})", coq::eclass(e)),
         };
-        ctx.case(format!("CMulti {fuel} {} {} {} {mexp}", o.coq(), ty.coq(), rs.term()), nontrivial, json!({"kind": "batch", "docs": names, "text": text}));
+        ctx.case(format!("CMulti {fuel} {} {} {} {mexp}", o.coq(), ty.coq(), rs.term()), nontrivial, json!({"kind": "batch", "docs": names, "text": text, "ty": format!("{ty:?}"), "opts": o.json()}));
         // ---- iterator (reader based: raw items come from the buffered input)
         let rsb = rawcoq::raw_stream_buffered(&text);
-        let ri = iterate(&text, &ty);
+        let ri = iterate(&text, &ty, o);
         let iexp = coq::list(&ri.iter().map(xterm).collect::<Vec<_>>(), "dexpect");
-        ctx.case(format!("CIter {fuel} {} {} {} {iexp}", o.coq(), ty.coq(), rsb.term()), nontrivial, json!({"kind": "iter", "docs": names, "text": text}));
+        ctx.case(format!("CIter {fuel} {} {} {} {iexp}", o.coq(), ty.coq(), rsb.term()), nontrivial, json!({"kind": "iter", "docs": names, "text": text, "ty": format!("{ty:?}"), "opts": o.json()}));
         // ---- single
-        let r1 = single(&text, &ty);
-        ctx.case(format!("CDeserDoc {fuel} {} {} {} {}", o.coq(), ty.coq(), rs.term(), xterm(&r1)), nontrivial, json!({"kind": "single", "docs": names, "text": text}));
+        let r1 = single(&text, &ty, o);
+        ctx.case(format!("CDeserDoc {fuel} {} {} {} {}", o.coq(), ty.coq(), rs.term(), xterm(&r1)), nontrivial, json!({"kind": "single", "docs": names, "text": text, "ty": format!("{ty:?}"), "opts": o.json()}));
 
         // ---- S
         ctx.direct_evaluations += 3;
-        let replay = json!({"kind": "stream", "docs": names, "text": text});
+        let replay = json!({"kind": "stream", "docs": names, "text": text, "ty": format!("{ty:?}"), "opts": o.json()});
+        // an empty root block scalar directly followed by a `---` line (known finding F61)
+        let absorbs = seq.windows(2).any(|w| matches!(docs[w[0]].0, "folded_empty" | "literal_empty"));
+        let cls = |c: &str| if absorbs { "F61:root-block-scalar-absorbs-document-marker".to_string() } else { c.to_string() };
         let kinds: Vec<Kind> = seq.iter().map(|&i| docs[i].1).collect();
         // batch: the list of per-document results, first error wins, null/empty skipped.
         // (a syntax error makes everything after it unreadable, which is an error for the batch anyway)
@@ -185,12 +217,12 @@ fn family(ctx: &mut Ctx, docs: &[(&str, Kind, &str)], ty: &Ty) {
             (None, Ok(vs)) => {
                 let want: Vec<&Val> = seq.iter().filter(|&&i| docs[i].1 == Kind::Valid).map(|&i| alone[i].as_ref().unwrap()).collect();
                 if vs.iter().collect::<Vec<_>>() != want {
-                    ctx.fail("batch-differs-from-per-document", format!("from_multiple over {names:?} gives {vs:?}, per-document results {want:?}"), replay.clone());
+                    ctx.fail(&cls("batch-differs-from-per-document"), format!("from_multiple over {names:?} gives {vs:?}, per-document results {want:?}"), replay.clone());
                 }
             }
-            (None, Err(e)) => ctx.fail("batch-rejects-valid-stream", format!("from_multiple over {names:?} fails with {}", coq::variant_name(e)), replay.clone()),
+            (None, Err(e)) => ctx.fail(&cls("batch-rejects-valid-stream"), format!("from_multiple over {names:?} fails with {}", coq::variant_name(e)), replay.clone()),
             (Some(_), Err(_)) => {}
-            (Some(k), Ok(vs)) => ctx.fail("batch-accepts-failing-document", format!("from_multiple over {names:?} returns {vs:?} although document {k} fails on its own"), replay.clone()),
+            (Some(k), Ok(vs)) => ctx.fail(&cls("batch-accepts-failing-document"), format!("from_multiple over {names:?} returns {vs:?} although document {k} fails on its own"), replay.clone()),
         }
         // iterator: Ok for valid, Err and continue for type errors, Err and stop for syntax errors
         let mut want: Vec<Option<&Val>> = Vec::new(); // None = some error
@@ -208,13 +240,13 @@ fn family(ctx: &mut Ctx, docs: &[(&str, Kind, &str)], ty: &Ty) {
         let got: Vec<Option<&Val>> = ri.iter().map(|r| r.as_ref().ok()).collect();
         if got != want {
             let show = |v: &Vec<Option<&Val>>| v.iter().map(|x| if x.is_some() { "Ok" } else { "Err" }).collect::<Vec<_>>().join(",");
-            ctx.fail("iterator-items", format!("read over {names:?} yields [{}], expected [{}] (values: {got:?})", show(&got), show(&want)), replay.clone());
+            ctx.fail(&cls("iterator-items"), format!("read over {names:?} yields [{}], expected [{}] (values: {got:?})", show(&got), show(&want)), replay.clone());
         }
         // single-document entry point: a stream whose first two documents both have content is rejected
         let with_content: Vec<usize> = seq.iter().copied().filter(|&i| docs[i].0 != "empty").collect();
-        if seq.len() >= 2 && docs[seq[0]].0 != "empty" && docs[seq[1]].0 != "empty" && docs[seq[0]].1 == Kind::Valid {
+        if seq.len() >= 2 && docs[seq[0]].1 == Kind::Valid {
             if let Ok(v) = &r1 {
-                ctx.fail("single-accepts-second-document", format!("from_str over {names:?} returns {v:?}"), replay.clone());
+                ctx.fail(&cls("single-accepts-second-document"), format!("from_str over {names:?} returns {v:?}"), replay.clone());
             }
         } else if seq.len() == 1 {
             let same = match (&r1, &alone[seq[0]]) {
@@ -223,12 +255,11 @@ fn family(ctx: &mut Ctx, docs: &[(&str, Kind, &str)], ty: &Ty) {
                 _ => false,
             };
             if !same {
-                ctx.fail("single-differs", format!("from_str over {names:?} differs from the per-document result"), replay.clone());
+                ctx.fail(&cls("single-differs"), format!("from_str over {names:?} differs from the per-document result"), replay.clone());
             }
         }
         let _ = with_content;
     }
-    single_with_budgets(ctx);
 }
 
 /// Single-document entry points reject a second document under every budget: a breach raised by the second
@@ -237,7 +268,7 @@ fn family(ctx: &mut Ctx, docs: &[(&str, Kind, &str)], ty: &Ty) {
 fn single_with_budgets(ctx: &mut Ctx) {
     use serde_saphyr::budget::Budget;
     let firsts = ["a: 1\n", "- x\n- y\n", "scalar\n", "a: 1\n...\n", "--- a: 1\n"];
-    let seconds = ["b: 2\n", "- z\n", "other\n", "{k: [1, 2, 3]}\n"];
+    let seconds = ["b: 2\n", "- z\n", "other\n", "{k: [1, 2, 3]}\n", "", "~\n", "null\n", "# only a comment\n", "...\n", "''\n", "|\n"];
     let any = Ty::Any;
     for f in firsts {
         for s2 in seconds {
@@ -285,10 +316,16 @@ fn single_with_budgets(ctx: &mut Ctx) {
 
 fn replay(ctx: &mut Ctx, r: &serde_json::Value) {
     let text = r["text"].as_str().unwrap_or("");
-    let ty = if r["docs"].to_string().contains("pair") || r["docs"].to_string().contains("surplus") { pair_ty() } else { rec_ty() };
-    println!("replay stream {:?}", r["docs"]);
-    println!("  from_multiple: {:?}", batch(text, &ty).map_err(|e| e.to_string()));
-    println!("  read: {:?}", iterate(text, &ty).into_iter().map(|x| x.map_err(|e| e.to_string())).collect::<Vec<_>>());
-    println!("  from_str: {:?}", single(text, &ty).map_err(|e| e.to_string()));
+    let ty = match r["ty"].as_str().unwrap_or("") {
+        "String" => Ty::String,
+        "Option(String)" => Ty::Option(Box::new(Ty::String)),
+        "Any" => Ty::Any,
+        _ => if r["docs"].to_string().contains("pair") || r["docs"].to_string().contains("surplus") { pair_ty() } else { rec_ty() },
+    };
+    let o = if r["opts"].is_object() { DOpts::from_json(&r["opts"]) } else { DOpts::new(P::Error) };
+    println!("replay stream {:?} as {ty:?} with {}", r["docs"], o.json());
+    println!("  from_multiple: {:?}", batch(text, &ty, &o).map_err(|e| e.to_string()));
+    println!("  read: {:?}", iterate(text, &ty, &o).into_iter().map(|x| x.map_err(|e| e.to_string())).collect::<Vec<_>>());
+    println!("  from_str: {:?}", single(text, &ty, &o).map_err(|e| e.to_string()));
     let _ = ctx;
 }
